@@ -675,7 +675,7 @@ def emit_p(inst, real):
         b.append("let src: [%s; %d] = kani::any();" % (ct, nsrc))
     b.append("let mut dbuf: [%s; %d] = kani::any();" % (ct, ndst))
     b.append("let old = dbuf;")
-    b.append("let pipe = Pipe { h: %s, v: %s, h_ws: %d, v_ws: %d };" % (passes["h"][0], passes["v"][0], passes["h"][1], passes["v"][1]))
+    b.append("let pipe = Pipe { h_geom: (%d, %d), v_geom: (%d, %d), h: %s, v: %s, h_ws: %d, v_ws: %d };" % (sw, dw, sh, dh, passes["h"][0], passes["v"][0], passes["h"][1], passes["v"][1]))
     b.append("pipe.inject::<%s>();" % P)
     opts = "ResizeOptions::new().resize_alg(%s).use_alpha(%s)" % (alg_rs(inst["alg"]), "true" if inst.get("alpha") else "false")
     if inst.get("crop"):
@@ -1066,7 +1066,7 @@ def emit_rel(inst, real):
     if inst.get("crop"):
         opts += ".crop(%s, %s, %s, %s)" % tuple(f64_rs(v) for v in inst["crop"])
     b = []
-    b.append("let pipe = Pipe { h: %s, v: %s, h_ws: %d, v_ws: %d };" % (passes["h"][0], passes["v"][0], passes["h"][1], passes["v"][1]))
+    b.append("let pipe = Pipe { h_geom: (%d, %d), v_geom: (%d, %d), h: %s, v: %s, h_ws: %d, v_ws: %d };" % (sw, dw, sh, dh, passes["h"][0], passes["v"][0], passes["h"][1], passes["v"][1]))
     b.append("let a: [%s; %d] = kani::any();" % (ct, nsrc))
     b.append("let mut da: [%s; %d] = kani::any();" % (ct, ndst))
     b.append("let mut db: [%s; %d] = kani::any();" % (ct, ndst))
